@@ -1,5 +1,6 @@
 """Shared machinery of every check: Coq build, case evaluation inside Coq, findings,
 evidence.  One property = one module under harness/props/ exposing run(ctx)."""
+import threading
 import os, sys, re, json, time, subprocess, hashlib, random, fcntl, importlib, traceback, collections
 from concurrent.futures import ThreadPoolExecutor
 
@@ -163,6 +164,14 @@ def parse_assumptions(out):
 # Evaluating the model inside Coq
 
 _case_counter = [0]
+_case_lock = threading.Lock()
+
+
+def _next_case_number():
+    """file numbers are handed out under a lock: case files are written from the worker threads"""
+    with _case_lock:
+        _case_counter[0] += 1
+        return _case_counter[0]
 
 
 def _run_case_file(path, timeout):
@@ -222,8 +231,7 @@ def coq_bools(name, imports, exprs, defs='', shard=300, timeout=900, keep=False)
     os.makedirs(CASES, exist_ok=True)
 
     def write_file(lo, hi):
-        _case_counter[0] += 1
-        fn = os.path.join(CASES, 'c_%s_%d_%d.v' % (re.sub(r'\W', '_', name), os.getpid(), _case_counter[0]))
+        fn = os.path.join(CASES, 'c_%s_%d_%d.v' % (re.sub(r'\W', '_', name), os.getpid(), _next_case_number()))
         body = ['From PV Require Import %s.' % imports, 'Local Open Scope N_scope.', defs,
                 'Definition cs : list bool := [']
         body.append(';\n'.join('(%s)' % e for e in exprs[lo:hi]))
@@ -253,8 +261,7 @@ def coq_codes(name, imports, exprs, defs='', shard=None, timeout=900):
     os.makedirs(CASES, exist_ok=True)
 
     def write_file(lo, hi):
-        _case_counter[0] += 1
-        fn = os.path.join(CASES, 'k_%s_%d_%d.v' % (re.sub(r'\W', '_', name), os.getpid(), _case_counter[0]))
+        fn = os.path.join(CASES, 'k_%s_%d_%d.v' % (re.sub(r'\W', '_', name), os.getpid(), _next_case_number()))
         body = ['From PV Require Import %s.' % imports, 'Local Open Scope N_scope.', defs,
                 'Definition cs : list N := [']
         body.append(';\n'.join('(%s)' % e for e in exprs[lo:hi]))
@@ -277,8 +284,7 @@ def coq_codes(name, imports, exprs, defs='', shard=None, timeout=900):
 def coq_show(imports, expr, defs='', timeout=300):
     """vm_compute one expression and return Coq's printed value (for replays and debugging)."""
     os.makedirs(CASES, exist_ok=True)
-    _case_counter[0] += 1
-    fn = os.path.join(CASES, 'show_%d_%d.v' % (os.getpid(), _case_counter[0]))
+    fn = os.path.join(CASES, 'show_%d_%d.v' % (os.getpid(), _next_case_number()))
     with open(fn, 'w') as f:
         f.write('From PV Require Import %s.\nLocal Open Scope N_scope.\n%s\nEval vm_compute in (%s).\n' % (imports, defs, expr))
     rc, out = _run_case_file(fn, timeout)
